@@ -1453,11 +1453,13 @@ impl<T: Transport, Env: UtpEnvironment> VirtualSocket<T, Env> {
 
     fn unsent_data_exists(&mut self) -> bool {
         // either unsegmented data exists, or unsent data exists or both
+        // An un-ACKed MTU probe also counts: it may still be popped and re-segmented into more
+        // segments than before, so the FIN must not take the sequence number after it yet.
         self.this_poll.unsegmented_data > 0
             || self
                 .user_tx_segments
                 .iter_mut_for_sending(None)
-                .any(|s| s.send_count() == 0)
+                .any(|s| s.send_count() == 0 || s.is_mtu_probe())
     }
 
     fn poll(&mut self, cx: &mut std::task::Context<'_>) -> Poll<crate::Result<()>> {
